@@ -509,10 +509,31 @@ def r_ws(ctx, rep):
         wr = next((g for g in F.fns if g.impl_trait == "Reader" and g.impl_self == fn.impl_self and g.name.endswith("::worksheet_range")), None)
         mine = _cloned_fields(fn)
         theirs = _cloned_fields(wr) if wr else set()
+        # name and range of one entry must come from the same stored element: pairing two collections by
+        # position (zip of the metadata list with the values of a name-sorted map) mixes sheets up
+        zips = []
+        for z in walk_k(fn.body, "MethodCall"):
+            if z["name"] == "zip" and z.get("args"):
+                a, b = _chain_root(z["recv"]), _chain_root(z["args"][0])
+                if a != b:
+                    zips.append((z, a, b))
+        if zips:
+            z, a, b = zips[0]
+            rep.violation("R-WS", key + "|zip", loc(z), "%s pairs two different collections by position (%s with %s): an entry's name and range can belong to different sheets whenever the two are ordered differently (a BTreeMap is sorted by name, the metadata list is in workbook order)" % (fn.name, a, b))
+            continue
         if mine and mine & theirs:
             rep.holds("R-WS", key, loc(fn.raw), "worksheets() clones the stored range `%s`, the value worksheet_range returns under the default header row" % sorted(mine & theirs))
         else:
             rep.violation("R-WS", key, loc(fn.raw), "%s neither calls worksheet_range nor clones the field worksheet_range returns (worksheets clones %s, worksheet_range clones %s)" % (fn.name, sorted(mine), sorted(theirs)))
+
+
+def _chain_root(e):
+    """`self.a.b.iter().map(..)` -> 'self.a.b' : the place an iterator chain starts from"""
+    e = peel(e)
+    while isinstance(e, dict) and e.get("k") == "MethodCall":
+        e = peel(e["recv"])
+    fc = field_chain(e) if isinstance(e, dict) else None
+    return ".".join([fc[0]] + fc[1]) if fc else "?"
 
 
 def _cloned_fields(fn):
